@@ -3477,6 +3477,13 @@ static void SwitchTo_78K4(void) {
     InitFields();
 }
 
+static void InitCode_78K4(void) {
+    Reg_RSS      = 0;
+    Reg_LOCATION = 0;
+}
+
 void code78k4_init(void) {
     CPU784026 = AddCPU("784026", SwitchTo_78K4);
+
+    AddInitPassProc(InitCode_78K4);
 }
